@@ -463,6 +463,7 @@ def corrupt(kind: str, param: int, w: dict, lumps: dict, game: list):
     if kind.startswith('trunc:'):
         name = kind[6:]
         idx = G.LUMP_INDEX[name]
+        lumps.setdefault(idx, {'data': b'', 'version': 0, 'lzma': False})
         lumps[idx]['data'] += bytes([1 + param % 250]) * (1 + param % 3)
         return TRUNC[name], name
     if kind in ('sprp_version', 'sprp_size'):
@@ -682,7 +683,7 @@ SUBCHECKS = [
             'corrupt:sprp_version', 'corrupt:trunc:PLANES', 'corrupt:trunc:TEXINFO', 'corrupt:trunc:LEAFS', 'corrupt:tex_offset',
             'corrupt:ents_unclosed', 'raised:error', 'raised:ValueError', 'history:same_object_look_save_look_save',
             'failing:dependent_view_late', 'corrupt:phys_dup', 'corrupt:phys_kv_bad', 'corrupt:phys_trunc',
-            'late:bmodels:ValueError', 'late:props:IndexError', 'late:overlays:IndexError')),
+            'late:bmodels:ValueError')),
 ]
 
 MATCHERS = {}
